@@ -112,7 +112,7 @@ Section Key.
   | TScalar (bits : Z)                                 (* "(scalar, {value})"               *)
   | TDense (shape : list Z) (h : digest)               (* "(dense_array, shape=, hash=)"    *)
   | TSparse (ty : string) (shape : list Z) (hs : list digest)
-                                                       (* "(sparse_array, hash=ty_shape_h*)" *)
+                                                       (* (sparse_array, hash=TYPE_SHAPE_HASHES) *)
   | TTdda (name : string) (doms : list Z) (tidx : Z)
   | TVar (name : string) (dom : Z) (tidx iidx : Z)
   | TMdVar (name : string) (doms : list Z) (tidx iidx : Z)
